@@ -24,10 +24,10 @@ value = st.one_of(
 def profile(family, big=False):
     if family == '1d':
         return ng.Profile(family='1d', pads=('causal', 'causal', 'same', 'none'),
-                          standalone_bn=True, exclude=True, reuse=True, multi_input=True,
+                          standalone_bn=True, exclude=True, reuse=True, multi_input=True, fixtures=True,
                           max_blocks=6 if big else 4, kmax=12, min_blocks=1)
     return ng.Profile(family='2d', standalone_bn=True, exclude=True, reuse=True,
-                      multi_input=True, max_blocks=6 if big else 4, min_blocks=1)
+                      multi_input=True, fixtures=True, max_blocks=6 if big else 4, min_blocks=1)
 
 
 @st.composite
